@@ -1,0 +1,15 @@
+//go:build !verif
+
+package m3
+
+import m3thrift "github.com/uber-go/tally/v4/m3/thrift/v2"
+
+// Verification hooks (build tag "verif"). With the tag off these are empty
+// and inlined away.
+
+func verifYield(site string) {}
+
+func verifNoteCharged(size int32, m *m3thrift.Metric) {}
+
+func verifNoteBatch(mets []m3thrift.Metric, commonTags []m3thrift.MetricTag, freeBytes, overheadBytes int32) {
+}
